@@ -273,6 +273,14 @@ fn rewrite_inlist(
         negated,
     } = inlist;
 
+    // `x IN ()` is false even when `x` is NULL, so the list of a column that
+    // may be NULL must not become empty
+    let original_list = if matches!(interval, NullableInterval::NotNull { .. }) {
+        None
+    } else {
+        Some(list.clone())
+    };
+
     // Can remove items from the list that don't match the guarantee
     let list: Vec<Expr> = list
         .into_iter()
@@ -290,6 +298,16 @@ fn rewrite_inlist(
             }
         })
         .collect::<Result<_, DataFusionError>>()?;
+
+    if let Some(original_list) = original_list
+        && list.is_empty()
+    {
+        return Ok(Transformed::no(Expr::InList(InList {
+            expr,
+            list: original_list,
+            negated,
+        })));
+    }
 
     Ok(Transformed::yes(Expr::InList(InList {
         expr,
